@@ -2,6 +2,7 @@ package rules
 
 import (
 	"fmt"
+	"go/types"
 	"strings"
 
 	"golang.org/x/tools/go/ssa"
@@ -98,11 +99,167 @@ func runC19(c *an.Ctx, p *an.Prog, thorough bool) {
 	c194(c, p)
 }
 
+// ---- what the hooks loop knows when it is first entered ----
+//
+// An iteration path is interpreted from the loop header with empty memory: a value computed before the loop shows up as
+// latecall@…/late@… ("computed earlier, no identity on this path"), a field of an object built before the loop as a
+// load of that field. hdrTerm translates such a term into the vocabulary of one path from the function's entry to the
+// loop header (ps), reading cells from the memory of that moment. Every cell read that way is reported through `read`:
+// what it held at the header is what it holds in every iteration only if nothing writes it afterwards (frozenCells).
+func hdrTerm(ps *an.PathState, t *an.Term, read func(cell *an.Term)) *an.Term {
+	if t == nil {
+		return nil
+	}
+	switch t.Op {
+	case "param", "const", "global", "fn":
+		return t
+	case "other":
+		if t.V != nil && (strings.HasPrefix(t.K, "latecall@") || strings.HasPrefix(t.K, "late@")) {
+			r := ps.T(t.V)
+			if r == nil || strings.HasPrefix(r.K, "latecall@") || strings.HasPrefix(r.K, "late@") {
+				return nil
+			}
+			return r
+		}
+	case "fieldaddr":
+		if b := hdrTerm(ps, t.Args[0], read); b != nil {
+			return &an.Term{K: "&" + b.K + "." + t.Aux, Op: "fieldaddr", Aux: t.Aux, Args: []*an.Term{b}, V: t.V}
+		}
+	case "load":
+		if len(t.Args) == 1 {
+			if a := hdrTerm(ps, t.Args[0], read); a != nil {
+				if v := ps.MemKey(a.K); v != nil {
+					if read != nil {
+						read(a)
+					}
+					return v
+				}
+				return &an.Term{K: "load(" + a.K + ")", Op: "load", Args: []*an.Term{a}, V: t.V}
+			}
+		}
+	}
+	return nil
+}
+
+// definedBeforeLoop: the base of an address is the same object in every iteration (the receiver, or a value computed
+// before the loop was entered).
+func definedBeforeLoop(t *an.Term) bool {
+	r := t.Root()
+	for r != nil && r.Op == "load" && len(r.Args) == 1 {
+		r = r.Args[0].Root()
+	}
+	return r != nil && (r.Op == "param" || (r.Op == "other" && (strings.HasPrefix(r.K, "latecall@") || strings.HasPrefix(r.K, "late@"))))
+}
+
+// fieldStores lists every store of module code that writes field idx of struct type st: stores through the field's
+// address and stores of a whole value of the struct type.
+func fieldStores(p *an.Prog, st types.Type, idx int) []*ssa.Store {
+	var out []*ssa.Store
+	for _, fn := range p.RepoFns {
+		for _, b := range fn.Blocks {
+			for _, in := range b.Instrs {
+				s, ok := in.(*ssa.Store)
+				if !ok {
+					continue
+				}
+				if fa, ok := s.Addr.(*ssa.FieldAddr); ok && fa.Field == idx {
+					if pt, ok := fa.X.Type().Underlying().(*types.Pointer); ok && types.Identical(pt.Elem(), st) {
+						out = append(out, s)
+					}
+				}
+				if types.Identical(s.Val.Type(), st) {
+					out = append(out, s)
+				}
+			}
+		}
+	}
+	return out
+}
+
+// fieldOfCell: the struct type and field index addressed by a fieldaddr term.
+func fieldOfCell(cell *an.Term) (types.Type, int, bool) {
+	fa, ok := cell.V.(*ssa.FieldAddr)
+	if !ok {
+		return nil, 0, false
+	}
+	pt, ok := fa.X.Type().Underlying().(*types.Pointer)
+	if !ok {
+		return nil, 0, false
+	}
+	return pt.Elem(), fa.Field, true
+}
+
+// inlinedOnlyInto: fn is root itself or a helper that is interpreted inside root and nowhere else.
+func inlinedOnlyInto(fn, root *ssa.Function) bool {
+	if fn == root {
+		return true
+	}
+	if !an.Inlinable(fn) {
+		return false
+	}
+	rs := an.InlineRoots(fn)
+	return len(rs) == 1 && rs[0] == root
+}
+
+// thunkOf: closure term cl (a function literal or a bound method value) does, on every path, exactly one thing: call
+// method `callee` on the captured value, which is bound to recv. Returns "" when that is so, else why not.
+func thunkOf(cl *an.Term, callee string, recv *an.Term) string {
+	mc, ok := cl.V.(*ssa.MakeClosure)
+	if !ok || cl.Op != "closure" {
+		return "not a closure: " + cl.K
+	}
+	f, _ := mc.Fn.(*ssa.Function)
+	if f == nil || len(f.Blocks) == 0 {
+		return "closure without a body"
+	}
+	why := ""
+	n := 0
+	er := an.EnumPaths(f, nil, nil, func(s *an.PathState) {
+		n++
+		calls := 0
+		for _, e := range s.Events {
+			switch e.Kind {
+			case "return":
+			case "call":
+				if e.Callee != callee || len(e.Args) == 0 {
+					why = shortName(f.String()) + " calls " + shortName(e.Callee)
+					continue
+				}
+				calls++
+				a := e.Args[0]
+				if a.Op == "load" && len(a.Args) == 1 {
+					a = a.Args[0] // a variable captured by reference
+				}
+				bound := false
+				for i, fv := range f.FreeVars {
+					if a.Op == "freevar" && a.Aux == fv.Name() && i < len(cl.Args) && cl.Args[i] != nil && cl.Args[i].K == recv.K {
+						bound = true
+					}
+				}
+				if !bound {
+					why = shortName(f.String()) + " calls " + shortName(callee) + " on something other than " + recv.K
+				}
+			default:
+				why = shortName(f.String()) + " does more than calling " + shortName(callee) + " (" + e.Kind + ")"
+			}
+		}
+		if calls != 1 && why == "" {
+			why = fmt.Sprintf("%s calls %s %d times on path %s", shortName(f.String()), shortName(callee), calls, s.BlockPath())
+		}
+	})
+	if !er.Complete || n == 0 {
+		return "cannot enumerate " + shortName(f.String())
+	}
+	return why
+}
+
 func c192(c *an.Ctx, p *an.Prog) {
 	run := p.Method("/cmd/whawty-auth", "HooksCaller", "run")
 	if !need(c, "C19.2", run, "main.(*HooksCaller).run") {
 		return
 	}
+	ctor := p.Func("/cmd/whawty-auth", "NewHooksCaller")
+	const runAll = "(*" + mainPkg + ".HooksCaller).runAllHooks"
 	// the loop whose select has the timer channel
 	var hdr *ssa.BasicBlock
 	for _, h := range loopHeaders(run) {
@@ -116,19 +273,44 @@ func c192(c *an.Ctx, p *an.Prog) {
 		c.Undecided("C19.2", fnKey(run)+"|loop", p.Pos(run.Pos()), "UNRESOLVED: no loop with a three-way select (timer, notify, store) in the hooks goroutine")
 		return
 	}
-	type caseRes struct {
-		n   int
-		bad []string
+	// what is known when the loop is first entered
+	var pre []*an.PathState
+	preRes := an.EnumPaths(run, nil, hdr.Instrs[0], func(s *an.PathState) { pre = append(pre, s) })
+	var invBad []string
+	if !preRes.Complete {
+		invBad = append(invBad, "cannot enumerate the paths into the loop")
 	}
-	res := map[string]*caseRes{"timer": {}, "notify": {}, "store": {}}
-	pendingKey := ""
+	cells := map[string]*an.Term{} // cells whose value at the header the rule relies on
+	// atHeader: the value t had when the loop was entered, the same on every path into the loop (nil if unknown)
+	atHeader := func(t *an.Term) *an.Term {
+		var out *an.Term
+		for _, ps := range pre {
+			v := hdrTerm(ps, t, func(cell *an.Term) { cells[cell.K] = cell })
+			if v == nil || (out != nil && out.K != v.K) {
+				return nil
+			}
+			out = v
+		}
+		return out
+	}
+	recvK := "p:" + run.Params[0].Name()
+	recvT := &an.Term{K: recvK, Op: "param", Aux: run.Params[0].Name(), V: run.Params[0]}
+
+	// ---- the iteration paths ----
+	type iter struct {
+		s    *an.PathState
+		sel  *an.Term
+		idx  int
+		kind string
+	}
+	var its []iter
 	an.EnumPathsTo(run, hdr, nil, hdr, func(s *an.PathState) {
 		if s.StopBlock == nil {
 			return
 		}
 		var sel *an.Term
 		for _, e := range s.Events {
-			if e.Kind == "select" {
+			if e.Kind == "select" && e.In != nil && e.In.Block() == hdr {
 				sel = e.Res
 			}
 		}
@@ -140,7 +322,7 @@ func c192(c *an.Ctx, p *an.Prog) {
 				}
 			}
 		}
-		if sel == nil || idx < 0 {
+		if sel == nil || idx < 0 || idx >= len(sel.Args) {
 			return
 		}
 		ch := sel.Args[idx]
@@ -155,40 +337,114 @@ func c192(c *an.Ctx, p *an.Prog) {
 		default:
 			return
 		}
+		its = append(its, iter{s, sel, idx, kind})
+	})
+	// the counter: the one field the timer and notify cases write. It is found by what happens to it — whatever it is
+	// called and whichever object of the hooks goroutine holds it; every other field written there is reported below.
+	var pcell *an.Term
+	{
+		cnt := map[string]int{}
+		at := map[string]*an.Term{}
+		for _, it := range its {
+			if it.kind == "store" {
+				continue
+			}
+			for _, e := range it.s.Events {
+				if e.Kind == "store" && e.Args[0].Op == "fieldaddr" {
+					cnt[e.Args[0].K]++
+					at[e.Args[0].K] = e.Args[0]
+				}
+			}
+		}
+		for _, k := range sortedKeys(cnt) {
+			if pcell == nil || cnt[k] > cnt[pcell.K] {
+				pcell = at[k]
+			}
+		}
+	}
+	pl := "load(<no counter>)"
+	if pcell != nil {
+		pl = "load(" + pcell.K + ")"
+	}
+	type caseRes struct {
+		n   int
+		bad []string
+	}
+	res := map[string]*caseRes{"timer": {}, "notify": {}, "store": {}}
+	iterStores := map[ssa.Instruction]bool{}
+	for _, it := range its {
+		s, sel, idx, kind := it.s, it.sel, it.idx, it.kind
 		r := res[kind]
 		r.n++
 		ran, reset := 0, 0
-		var resetArg *an.Term
+		var resetArg, resetRecv *an.Term
 		var pendStore *an.Term
 		var storeStore *an.Term
+		var timerCh *an.Term
+		for _, a := range sel.Args {
+			if strings.Contains(a.K, ".C)") {
+				timerCh = a
+			}
+		}
 		for _, e := range s.Events {
-			if e.Kind == "call" && e.Fn != nil && p.InRepo(e.Fn) && e.Callee != "(*"+mainPkg+".HooksCaller).runAllHooks" {
+			if e.Kind == "call" && e.Fn != nil && p.InRepo(e.Fn) && e.Callee != runAll {
 				r.bad = append(r.bad, "the loop calls "+shortName(e.Callee)+", whose effect on the notification queue / pending counter is outside the transition table")
+			}
+			if e.Kind == "call" && e.Fn == nil && e.FnVal == nil && strings.HasPrefix(e.Callee, "invoke ") && strings.Contains(e.Callee, an.Module) {
+				r.bad = append(r.bad, "the loop calls "+shortName(e.Callee)+" through an interface: its effect is outside the transition table")
+			}
+			if e.Kind == "go" || e.Kind == "defer" || e.Kind == "send" {
+				r.bad = append(r.bad, "a "+e.Kind+" inside one loop iteration")
 			}
 			if e.Kind == "recv" || (e.Kind == "select" && e.Res != sel) {
 				r.bad = append(r.bad, "a second channel operation inside one loop iteration")
 			}
-			if e.Kind == "call" && e.Callee == "(*"+mainPkg+".HooksCaller).runAllHooks" {
+			if e.Kind == "call" && e.Callee == runAll {
 				ran++
+				if len(e.Args) == 0 || e.Args[0].K != recvK {
+					r.bad = append(r.bad, "the hooks of another caller are run")
+				}
+			}
+			if e.Kind == "call" && e.FnVal != nil {
+				// a call through a function value: it counts as "run all hooks" only if the value is shown to be
+				// h.runAllHooks — held in a cell that is set before the loop and never written afterwards
+				fv := e.FnVal
+				if fv.Op != "closure" {
+					fv = atHeader(e.FnVal)
+				}
+				why := "its value when the loop is entered is unknown"
+				if fv != nil {
+					why = thunkOf(fv, runAll, recvT)
+				}
+				if why == "" {
+					ran++
+				} else {
+					r.bad = append(r.bad, "the loop calls the function value "+e.FnVal.K+", which is not shown to be "+recvK+".runAllHooks ("+why+")")
+				}
 			}
 			if e.Kind == "call" && e.Callee == "(*time.Timer).Reset" {
 				reset++
+				resetRecv = e.Args[0]
 				resetArg = e.Args[1]
 			}
-			if e.Kind == "store" && e.Args[0].Op == "fieldaddr" {
-				switch e.Args[0].Aux {
-				case "pending":
+			if e.Kind == "store" {
+				iterStores[e.In] = true
+				a := e.Args[0]
+				switch {
+				case a.Op == "fieldaddr" && pcell != nil && a.K == pcell.K:
 					pendStore = e.Args[1]
-					pendingKey = e.Args[0].K
-				case "store":
+				case a.Op == "fieldaddr" && kind == "store" && a.K == "&"+recvK+".store":
 					storeStore = e.Args[1]
+				case a.Op == "fieldaddr":
+					r.bad = append(r.bad, "unexpected write to field "+a.Aux)
+				case a.Root() != nil && a.Root().Op == "alloc":
+					// a local of this iteration
 				default:
-					r.bad = append(r.bad, "unexpected write to field "+e.Args[0].Aux)
+					r.bad = append(r.bad, "write through the pointer "+a.K)
 				}
 			}
 		}
 		// the guard on pending of this iteration
-		pl := "load(&p:h.pending)"
 		lo, hi := int64(-1<<63), int64(1<<63-1)
 		for _, a := range s.Atoms {
 			if a.B == nil || a.A.K != pl {
@@ -250,7 +506,17 @@ func c192(c *an.Ctx, p *an.Prog) {
 				if ran != 1 {
 					r.bad = append(r.bad, fmt.Sprintf("first notification of an interval runs the hooks %d times", ran))
 				}
-				if reset != 1 || resetArg == nil || !strings.Contains(resetArg.K, "rateLimit") {
+				okArm := reset == 1 && resetArg != nil
+				if okArm && !strings.Contains(resetArg.K, "rateLimit") {
+					// the interval may be kept in an object built before the loop
+					if hv := atHeader(resetArg); hv == nil || !strings.Contains(hv.K, "rateLimit") {
+						okArm = false
+					}
+				}
+				if okArm && (timerCh == nil || timerCh.K != "load(&"+resetRecv.K+".C)") {
+					okArm = false // another timer than the one the loop waits for
+				}
+				if !okArm {
 					r.bad = append(r.bad, "first notification of an interval does not arm the timer with rateLimit")
 				}
 			case lo >= 1:
@@ -280,7 +546,7 @@ func c192(c *an.Ctx, p *an.Prog) {
 				r.bad = append(r.bad, "store path is not set to the received value")
 			}
 		}
-	})
+	}
 	for _, k := range []string{"timer", "notify", "store"} {
 		r := res[k]
 		min := 2
@@ -288,6 +554,29 @@ func c192(c *an.Ctx, p *an.Prog) {
 			min = 1
 		}
 		c.Check(len(r.bad) == 0 && r.n >= min, "C19.2", fnKey(run)+"|case="+k, p.Pos(run.Pos()), fmt.Sprintf("%d iteration paths conform to the transition table", r.n), strings.Join(uniqS(r.bad), "; ")+fmt.Sprintf(" (%d paths)", r.n))
+	}
+	// cells read at the loop header (the callback, the interval, the timer of a rate-limiter object): written only on
+	// the way into the loop — by the hooks goroutine itself (run or a helper interpreted inside it and nowhere else) or
+	// by the constructor — and never inside an iteration
+	{
+		for _, k := range sortedKeys(cells) {
+			cell := cells[k]
+			st, idx, ok := fieldOfCell(cell)
+			if !ok {
+				invBad = append(invBad, "cannot identify the field behind "+cell.K)
+				continue
+			}
+			for _, w := range fieldStores(p, st, idx) {
+				fn := w.Parent()
+				if iterStores[w] {
+					invBad = append(invBad, cell.Aux+" is written inside the loop at "+p.InstrPos(w)+": its value at loop entry says nothing about later iterations")
+				}
+				if !inlinedOnlyInto(fn, run) && fn != ctor {
+					invBad = append(invBad, cell.Aux+" is written in "+fnKey(fn)+" at "+p.InstrPos(w)+", outside the hooks goroutine")
+				}
+			}
+		}
+		c.Check(len(invBad) == 0, "C19.2", fnKey(run)+"|loop-invariants", p.Pos(run.Pos()), fmt.Sprintf("%d cells read as of loop entry are written only before the loop, by the hooks goroutine or the constructor", len(cells)), strings.Join(uniqS(invBad), "; "))
 	}
 	// every receive from the notification channel is a case of a loop select in run (none elsewhere may swallow one)
 	{
@@ -314,31 +603,54 @@ func c192(c *an.Ctx, p *an.Prog) {
 		}
 		c.Check(len(badr) == 0 && nrecv >= 1, "C19.2", "notify|single-consumer", p.Pos(run.Pos()), fmt.Sprintf("%d receive sites of hooks.Notify, all cases of the loop selects in run", nrecv), strings.Join(uniqS(badr), "; "))
 	}
-	// writers of pending
+	// writers of pending, and its value when the loop is entered
 	var bad []string
 	n := 0
-	ctor := p.Func("/cmd/whawty-auth", "NewHooksCaller")
-	for _, fn := range pkgFns(p, mainPkg) {
-		for _, in := range an.DeepInstrs(fn) {
-			{
-				if st, ok := in.(*ssa.Store); ok {
-					if fa, ok := st.Addr.(*ssa.FieldAddr); ok && isNamed(fa.X.Type(), mainPkg, "HooksCaller") && fieldNameOf(fa) == "pending" {
-						n++
-						if fn != run && fn != ctor {
-							bad = append(bad, "pending written in "+fnKey(fn)+" at "+p.InstrPos(in))
-						}
-						if fn == ctor {
-							if k, ok := st.Val.(*ssa.Const); !ok || k.Int64() != 0 {
-								bad = append(bad, "constructor does not start with pending = 0")
-							}
-						}
+	if pcell == nil {
+		bad = append(bad, "no counter: the timer and notify cases write no field")
+	} else if st, idx, ok := fieldOfCell(pcell); !ok {
+		bad = append(bad, "cannot identify the field behind "+pcell.K)
+	} else {
+		ownField := pcell.Args[0].K == recvK // the counter is a field of the HooksCaller itself
+		for _, w := range fieldStores(p, st, idx) {
+			fn := w.Parent()
+			n++
+			switch {
+			case inlinedOnlyInto(fn, run):
+			case fn == ctor && ownField:
+				if k, ok := w.Val.(*ssa.Const); !ok || k.Value == nil || k.Int64() != 0 {
+					bad = append(bad, "constructor does not start with pending = 0")
+				}
+			default:
+				bad = append(bad, "pending written in "+fnKey(fn)+" at "+p.InstrPos(w))
+			}
+		}
+		switch {
+		case ownField:
+			// built by the constructor (checked above), handed to the one `go h.run()` (checked below)
+		case !definedBeforeLoop(pcell):
+			bad = append(bad, "the counter "+pcell.K+" lives in an object made inside the iteration: nothing is counted from one notification to the next")
+		default:
+			// a field of an object the hooks goroutine builds on its way into the loop: zero at loop entry
+			if len(pre) == 0 {
+				bad = append(bad, "no path into the loop")
+			}
+			for _, ps := range pre {
+				a := hdrTerm(ps, pcell, nil)
+				switch {
+				case a == nil:
+					bad = append(bad, "cannot tell which object holds the counter "+pcell.K+" when the loop is entered")
+				case ps.MemKey(a.K) != nil:
+					if !ps.MemKey(a.K).IsConst("0") {
+						bad = append(bad, "the counter starts as "+ps.MemKey(a.K).K+", not 0")
 					}
+				case !ps.Unclobbered(a):
+					bad = append(bad, "the counter's value when the loop is entered is unknown ("+a.K+" is not a fresh object of the hooks goroutine, or has been handed out)")
 				}
 			}
 		}
 	}
-	_ = pendingKey
-	c.Check(len(bad) == 0 && n >= 2, "C19.2", "pending|writers", "-", fmt.Sprintf("%d writes of pending, all in the hooks loop or the constructor (=0)", n), strings.Join(bad, "; "))
+	c.Check(len(bad) == 0 && n >= 2, "C19.2", "pending|writers", "-", fmt.Sprintf("%d writes of pending, all in the hooks loop or the constructor (=0); 0 when the loop is entered", n), strings.Join(uniqS(bad), "; "))
 	// the hooks goroutine is started exactly once by the constructor
 	if ctor != nil {
 		ngo := 0
@@ -465,7 +777,8 @@ func c194(c *an.Ctx, p *an.Prog) {
 				if cc, _ := v.CallOf(); cc != nil && cc.Aux == "builtin append" && cc.Args[0].IsCallTo("os.Environ") {
 					extra := cc.Args[1]
 					if extra.Op == "varargs" && len(extra.Args) == 1 {
-						if sp, _ := extra.Args[0].CallOf(); sp != nil && sp.Aux == "fmt.Sprintf" && sp.Args[0].IsConst(`"WHAWTY_AUTH_STORE=%s"`) && sp.Args[1].Op == "varargs" && sp.Args[1].Args[0].K == s.T(rh.Params[1]).K {
+						// the one added entry composes "WHAWTY_AUTH_STORE=" + store, however it is spelled (Sprintf, +, Join)
+						if as, ok := fmtArgs(extra.Args[0], "WHAWTY_AUTH_STORE=%s"); ok && len(as) == 1 && as[0].K == s.T(rh.Params[1]).K {
 							okEnv = true
 						}
 					}
